@@ -609,6 +609,19 @@ gen_hostile(hcb_t cb, void *clo)
 			}
 		}
 	}
+	/* H2c: a minute / second value v >= 32 that the steps never meet, started on minute / second v - 32 (a 32-bit
+	 * mask would alias the two) */
+	for (int v = 32; v <= 59; v++) {
+		static char dtl[2][40];
+		snprintf(dtl[0], sizeof(dtl[0]), "DTSTART:20240101T00%02d00", v - 32);
+		snprintf(dtl[1], sizeof(dtl[1]), "DTSTART:20240101T0000%02d", v - 32);
+		snprintf(h.rrule, sizeof(h.rrule), "FREQ=MINUTELY;INTERVAL=60;BYMINUTE=%d", v);
+		snprintf(h.shape, sizeof(h.shape), "MINUTELY/interval-vs-MINUTE/i=unit/value-ge-32");
+		h.freq = RF_MINUTELY, h.dtline = dtl[0], h.dtclass = "aliased-start";
+		cb(&h, clo);
+		/* (the SECONDLY analogue is an empty SECONDLY set, which is the recorded 3 s finding) */
+		h.dtline = NULL;
+	}
 	/* H2b: every INTERVAL 2..13 against every single BYMONTH, for the two coarse frequencies: the congruence
 	 * pre-checks there depend on whether the BYMONTH month lies before or after DTSTART's month */
 	for (int f = RF_YEARLY; f <= RF_MONTHLY; f++) {
@@ -645,6 +658,22 @@ gen_hostile(hcb_t cb, void *clo)
 			snprintf(h.rrule, sizeof(h.rrule), "FREQ=%s;%s", fnm[o[i].f], o[i].r);
 			snprintf(h.shape, sizeof(h.shape), "%s/ordinal-beyond/%s", fnm[o[i].f], strstr(o[i].r, "BYMONTH") ? "in-february" : strstr(o[i].r, "WEEKNO") ? "weekno" : strstr(o[i].r, "SETPOS") ? "setpos" : "plain");
 			h.freq = o[i].f;
+			cb(&h, clo);
+		}
+	}
+	/* H4b: BYDAY lists of 14, 15, 16 and 35 distinct ordinal entries (the list container changes its representation
+	 * at the 15th) */
+	for (int f = RF_YEARLY; f <= RF_MONTHLY; f++) {
+		static const char *const wds[] = {"MO", "TU", "WE", "TH", "FR", "SA", "SU"};
+		static const int ords[] = {1, 2, 3, 4, -1};
+		static const int lens[] = {14, 15, 16, 35};
+		for (size_t q = 0; q < sizeof(lens) / sizeof(*lens); q++) {
+			size_t o = (size_t)snprintf(h.rrule, sizeof(h.rrule), "FREQ=%s;BYDAY=", fnm[f]);
+			for (int i = 0; i < lens[q]; i++) {
+				o += (size_t)snprintf(h.rrule + o, sizeof(h.rrule) - o, "%s%d%s", i ? "," : "", ords[i % 5], wds[i / 5]);
+			}
+			snprintf(h.shape, sizeof(h.shape), "%s/byday-list/%s", fnm[f], lens[q] < 15 ? "lt15" : "ge15");
+			h.freq = f;
 			cb(&h, clo);
 		}
 	}
@@ -809,13 +838,14 @@ hostile_case(const struct hrule_s *h, void *clo)
 					stop = r.hung;
 					break;
 				}
-				if (!k && !e && c.have_t0 && r.n > 0 && proven_empty(&c.pr, c.t0) == 2) {
-					/* (c) no calendar day satisfies the date parts, yet the stream yields */
+				if (!k && !e && c.have_t0 && r.n > 0 && proven_empty(&c.pr, c.t0)) {
+					/* (c) no calendar day satisfies the date parts, or the INTERVAL steps never meet the time / weekday
+					 * parts, yet the stream yields */
 					for (long i = 0; i < r.n; i++) {
 						if (keep[i] != INT64_MIN && keep[i] != ts0) {
 							char sig[320], b[32];
 							snprintf(sig, sizeof(sig), "empty-yields/%s/hostile", c.shape);
-							vd_viol(sig, "no calendar day satisfies the date parts of the rule, the stream yields %s (call %ld)", sf_secs_str(b, sizeof(b), keep[i], ad), i + 1);
+							vd_viol(sig, "the set is provably empty (date parts without a day, or INTERVAL steps that never meet the time parts), the stream yields %s (call %ld)", sf_secs_str(b, sizeof(b), keep[i], ad), i + 1);
 							break;
 						}
 					}
